@@ -533,6 +533,8 @@ def snapshot(v):
         return list(v)
     if isinstance(v, dict):
         return dict(v)
+    if isinstance(v, SeqV):
+        return SeqV(v.length, v.get, v.kind, v.name)
     return v
 
 
